@@ -41,7 +41,7 @@ pub struct State {
     forced: Option<VecDeque<(u16, u64, bool)>>,
     pub diverged: bool,
     pub switches: u64,
-    pub switches_by_site: [u64; 16],
+    pub switches_by_site: [u64; 32],
     pub forced_unblock: u64,
     /// threads presumed blocked inside jbonsai (on a lock another simulated thread holds)
     blocked: Vec<bool>,
@@ -115,7 +115,7 @@ impl Sched {
             forced: forced.map(|v| v.into_iter().collect()),
             diverged: false,
             switches: 0,
-            switches_by_site: [0; 16],
+            switches_by_site: [0; 32],
             forced_unblock: 0,
             blocked: vec![false; nthreads],
             tainted: false,
@@ -236,7 +236,7 @@ impl Sched {
         }
         st.log.push((id as u16, ran, false));
         st.switches += 1;
-        st.switches_by_site[(site as usize) & 15] += 1;
+        st.switches_by_site[(site as usize) & 31] += 1;
         st.current = next;
         st.pending_len = len;
         self.cvs[next].notify_one();
